@@ -63,6 +63,10 @@ class SimBaseExc(BaseException):
     """A BaseException that is neither KeyboardInterrupt nor SystemExit."""
 
 
+class SimValueSub(ValueError):
+    """a subclass of a builtin exception class"""
+
+
 class SimError(Exception):
     """Exception class 'defined by the library under test' (module qualified)."""
 
@@ -102,7 +106,7 @@ BUILTIN_EXC = {
     'AssertionError': AssertionError, 'TypeError': TypeError, 'RuntimeError': RuntimeError,
     'IndexError': IndexError, 'MemoryError': MemoryError, 'RecursionError': RecursionError,
     'KeyboardInterrupt': KeyboardInterrupt, 'SystemExit': SystemExit, 'OSError': OSError,
-    'ImportError': ImportError, 'SimBaseExc': SimBaseExc, 'SimError': SimError,
+    'ImportError': ImportError, 'SimBaseExc': SimBaseExc, 'SimError': SimError, 'SimValueSub': SimValueSub,
     'NameError': NameError, 'AttributeError': AttributeError, 'StopIteration': StopIteration,
     'LookupError': LookupError, 'ArithmeticError': ArithmeticError,
 }
